@@ -436,4 +436,49 @@ def updateWorkingTree (isEmpty : FS → PPath → Bool) (v : Bytes → Bool) (ro
     (adds : List Entry) (st : St) : Step :=
   (deletePhase v root deletes st).andThen (uwtPhaseAllG uwtFreshCache gitlinkDirTestFollows isEmpty v root adds)
 
+/-! ### sparse checkout: `sparse_patterns.apply_included_paths`, one index path -/
+
+/-- Step 2 of `apply_included_paths` for one index entry (`excluded` = its skip-worktree bit; `force=True`, i.e. the
+local-modification test — a read — never vetoes).
+`guarded = true` is the code as it stands: `validate_path` with the configured validator (excluded: skip an invalid
+path; included: raise), excluded paths are looked up through `_lstat_tracked_path` and `os.remove`d (a directory is
+left alone), included paths go through `verify_leading_dirs(path, [], repo_path)`, count as present when `os.lstat`
+finds anything, and are otherwise written by `ensure_dir_exists(dirname)` + `build_file_from_blob`.
+`guarded = false` is the code BEFORE the repair: `os.path.join(repo.path, path)` with no validation at all,
+`os.path.exists` (follows symlinks) as presence test, `os.remove` / `open(full_path, "wb")` through whatever the
+path resolves to. -/
+def sparseEntryG (guarded : Bool) (v : Bytes → Bool) (root : PPath) (e : Entry) (excluded : Bool) (st : St) : Step :=
+  if guarded then
+    if excluded then deleteOldG true v root e.path st
+    else if validatePath v e.path = false then (st, some .invalidPath)
+    else
+      let comps := splitOn pathSep e.path
+      match verifyLeadingDirs st.fs root comps [] with
+      | .error err => (st, some err)
+      | .ok _ =>
+        match lstat st.fs root comps with
+        | .error .enoent =>
+          (ensureParent root comps.dropLast st).andThen (buildFileFromBlob root comps e.mode e.content)
+        | .error err => (st, some err)
+        | .ok _ => (st, none)
+  else
+    let comps := splitOn pathSep e.path
+    if excluded then
+      if exists_ st.fs root comps then
+        match st.apply (sysUnlink st.fs root comps) with
+        | (s, some .eisdir) => (s, none)
+        | (s, some .enoent) => (s, none)
+        | r => r
+      else (st, none)
+    else if exists_ st.fs root comps then (st, none)
+    else (ensureParent root comps.dropLast st).andThen fun s => s.apply (sysOpenWrite s.fs e.content root comps)
+
+def sparseApplyG (guarded : Bool) (v : Bytes → Bool) (root : PPath) : List (Entry × Bool) → St → Step
+  | [], st => (st, none)
+  | (e, x) :: es, st => (sparseEntryG guarded v root e x st).andThen (sparseApplyG guarded v root es)
+
+/-- step 2 of `apply_included_paths` as coded now (`Gen.sparseGuarded`, read from the source) -/
+def sparseApply (v : Bytes → Bool) (root : PPath) (entries : List (Entry × Bool)) (st : St) : Step :=
+  sparseApplyG sparseGuarded v root entries st
+
 end Dulwich.Checkout
